@@ -398,6 +398,49 @@ def ctxvar_only(run, model, rule="C12.ctxvar-only"):
 MEMOISERS = ("lru_cache", "cache", "cached_property", "singledispatch")
 
 
+_VALUE_TYPES = ("str", "int", "bool", "bytes", "float")
+
+
+def pure_value_memo(fn, mod):
+    """A memoised function for which an equal key is as good as the identical one: every parameter and the result are
+    annotated with an immutable built-in value type (``str -> str``), and the body looks at nothing but its
+    parameters, literals and functions of imported standard-library modules (no global of the package, no attribute
+    of a user object).  ``text -> textwrap.dedent(text)`` qualifies; a helper keyed by a signature, a function, a
+    code object or a contract does not."""
+    a = fn.args
+    if a.vararg or a.kwarg or not (a.args or a.kwonlyargs):
+        return False
+    params = a.posonlyargs + a.args + a.kwonlyargs
+    if not all(isinstance(p.annotation, ast.Name) and p.annotation.id in _VALUE_TYPES for p in params):
+        return False
+    if not (isinstance(fn.returns, ast.Name) and fn.returns.id in _VALUE_TYPES):
+        return False
+    names = set(p.arg for p in params)
+    local = set(n.id for n in ast.walk(fn) if isinstance(n, ast.Name) and isinstance(n.ctx, ast.Store))
+    for st in fn.body:
+        for sub in ast.walk(st):
+            if isinstance(sub, (ast.FunctionDef, ast.AsyncFunctionDef, ast.Lambda, ast.ClassDef, ast.Global, ast.Nonlocal, ast.Yield, ast.YieldFrom, ast.Await)):
+                return False
+            if isinstance(sub, ast.Name) and isinstance(sub.ctx, ast.Load):
+                if sub.id in names or sub.id in local:
+                    continue
+                imported = mod.imports.get(sub.id, "")
+                if imported and not imported.startswith("icontract") and "." not in imported:
+                    continue  # ``import textwrap``: a standard-library module
+                if hasattr(__import__("builtins"), sub.id):
+                    continue
+                return False
+    return True
+
+
+def _memo_exempt(mod, node):
+    """the decorator ``node`` (or a part of it) sits on a function of ``mod`` that is a pure value memo"""
+    for fn in ast.walk(mod.tree):
+        if isinstance(fn, ast.FunctionDef) and any(node is x for d in fn.decorator_list for x in ast.walk(d)):
+            return pure_value_memo(fn, mod)
+    return False
+
+
 def no_memo(run, model, rule="C12.no-memo"):
     """Nothing in the package remembers results across calls (functools.lru_cache and friends).
 
@@ -412,7 +455,7 @@ def no_memo(run, model, rule="C12.no-memo"):
                 f = sub
             elif isinstance(sub, ast.Name) and sub.id in MEMOISERS and mod.imports.get(sub.id, "").startswith("functools."):
                 f = sub
-            if f is not None:
+            if f is not None and not _memo_exempt(mod, f):
                 bad.append(f)
         if bad:
             for f in bad[:3]:
